@@ -27,11 +27,23 @@ func TestVerifC18(t *testing.T) {
 			}
 		}
 		nforms := 1 + len(others) + 2
-		for mask := 0; mask < 1<<uint(nforms); mask++ {
+		// empty: which of the three forms that matter carry an empty value - present, so it is the one that is parsed (and refused)
+		for maskE := 0; maskE < (1<<uint(nforms))*8; maskE++ {
+			mask, empty := maskE>>3, maskE&7
+			val := func(bit int, v string) string {
+				if empty&bit != 0 {
+					return ""
+				}
+				return v
+			}
+			if (empty&1 != 0 && mask&1 == 0) || (empty&2 != 0 && mask&(1<<uint(nforms-2)) == 0) || (empty&4 != 0 && mask&(1<<uint(nforms-1)) == 0) {
+				continue
+			}
 			ann := map[string]string{"x" + epcLimitKey: "999", epcLimitKey + "x/pod": "998"}
 			var expect uint64
+			expectErr := false
 			if mask&1 != 0 {
-				ann[epcLimitKey+"/container."+target] = "11"
+				ann[epcLimitKey+"/container."+target] = val(1, "11")
 			}
 			for i, o := range others {
 				if mask&(1<<uint(1+i)) != 0 {
@@ -39,25 +51,28 @@ func TestVerifC18(t *testing.T) {
 				}
 			}
 			if mask&(1<<uint(nforms-2)) != 0 {
-				ann[epcLimitKey+"/pod"] = "22"
+				ann[epcLimitKey+"/pod"] = val(2, "22")
 			}
 			if mask&(1<<uint(nforms-1)) != 0 {
-				ann[epcLimitKey] = "33"
+				ann[epcLimitKey] = val(4, "33")
 			}
 			switch {
 			case mask&1 != 0:
-				expect = 11
+				expect, expectErr = 11, empty&1 != 0
 			case mask&(1<<uint(nforms-2)) != 0:
-				expect = 22
+				expect, expectErr = 22, empty&2 != 0
 			case mask&(1<<uint(nforms-1)) != 0:
-				expect = 33
+				expect, expectErr = 33, empty&4 != 0
+			}
+			if expectErr {
+				expect = 0
 			}
 			got, err := parseEpcLimit(ann, target)
 			w.Res.Evaluations++
 			if mask != 0 {
 				w.Res.Nontrivial++
 			}
-			if err != nil || got != expect {
+			if (err != nil) != expectErr || got != expect {
 				w.Report(mc.Violation{Property: "C18", Oracle: "epc-limit", Signature: "sgx-epc-effective-annotation", Scenario: "sgx-epc",
 					Trace:  []string{fmt.Sprintf("container=%s annotations=%v", target, ann)},
 					Detail: fmt.Sprintf("parseEpcLimit(%q) = (%d, %v), expected %d", target, got, err, expect)})
